@@ -8,6 +8,9 @@ if [ "${1:-}" = "-R" ]; then rev="-R"; shift; fi
 [ "${1:-}" = "--" ] && shift
 cd /verif
 patch=$(realpath "$patch"); if ! git -C /repo apply $rev "$patch"; then echo "PATCH-DOES-NOT-APPLY $patch"; exit 3; fi
+# restore /repo however this script ends (also when its output is piped into `head` and the pipe closes early)
+trap 'git -C /repo checkout -- . ' EXIT
+trap '' PIPE
 rc=0
 for p in "$@"; do
   out=$(./check "$p" --no-evidence 2>&1); c=$?
